@@ -166,8 +166,11 @@ def r_normalise(ck: Checker) -> None:
             "to NoneType), whichever way it is spelled")
     bad = None
     tp = fn.args.args[0].arg
+    def is_hints_call(e: ast.expr | None) -> bool:
+        return isinstance(e, ast.Call) and dotted(e.func) in ("get_type_hints", "typing.get_type_hints", "t.get_type_hints") and bool(e.args) and norm(e.args[0]) == tp
+
     hints_vars = {norm(st.targets[0] if isinstance(st, ast.Assign) else st.target) for st in fn.body if isinstance(st, (ast.Assign, ast.AnnAssign))
-                  and st.value is not None and norm(st.value) == f"get_type_hints({tp})"} | {f"get_type_hints({tp})"}
+                  and is_hints_call(st.value)} | {norm(c_) for c_ in ast.walk(fn) if is_hints_call(c_)}  # type: ignore[arg-type]
 
     def prov(e: ast.expr, env: dict[str, set[str]]) -> set[str]:
         """Where a value comes from: 'hints' (an entry of get_type_hints(type_) for this field), 'none', 'raw' (field.type), 'other'."""
@@ -213,6 +216,12 @@ def r_normalise(ck: Checker) -> None:
     raw = [n for n in walk_body(lp.body) if isinstance(n, ast.Attribute) and n.attr == "type" and norm(n.value) == fv]
     if raw:
         bad = bad or f"raw {fv}.type is read"
+    for c_ in ast.walk(fn):
+        if isinstance(c_, ast.Call) and dotted(c_.func) in ("get_type_hints", "typing.get_type_hints", "t.get_type_hints"):
+            extra = [k_.arg for k_ in c_.keywords if not (k_.arg == "include_extras" and isinstance(k_.value, ast.Constant) and k_.value.value is False)]
+            if extra or len(c_.args) != 1:
+                bad = bad or (f"get_type_hints is called with {', '.join(str(e) for e in extra) or 'extra arguments'}: the annotations reach the classifier in another form "
+                              "(e.g. Annotated[...] wrappers kept)")
     if not n_store and not bad:
         raise Unsupported("get_field_types: result store not found", lp)
     (ck.violation if bad else ck.holds)("R-NORMALISE", f, lp, what, **({"construct": f"get_field_types: {bad} (bypasses get_type_hints)"} if bad else {"evaluations": len(leaves)}))
